@@ -172,6 +172,82 @@ def correspondence(ctx):
                  sample=dict(case, impl_log_prob=lpl[:2], model_log_prob=total[:2]) if len(ctx.samples) < 6 else None)
         if not agree:
             ctx.disagree('C03/flow', case, lpl, total, 'log_prob differs from base log-density at the transformed point plus the summed log-abs-dets')
+    gated_flows(ctx)
+    cached_linear_flows(ctx)
+
+
+def gated_flows(ctx, report=None):
+    """flows whose transform is the context gate (GatedLinearUnit; the transform-level model covers it only as an 'extra'): with a
+    gate that is BROADCAST over D features (context [B, 1]) or per feature (context [B, D]) the density has the closed form
+    log N(x * g; 0, I) + sum over the D features of log g — which integrates to one; also after a linear layer that mixes features"""
+    from nflows.flows.base import Flow
+    from nflows.distributions.normal import StandardNormal
+    import nflows.transforms as T
+    gen = torch.Generator().manual_seed(ctx.seed + 3131)
+    for D in (1, 2, 3):
+        for cw in sorted({1, D}):
+            flow = Flow(T.GatedLinearUnit(), StandardNormal([D])).double(); flow.eval()
+            x = 1.3 * torch.randn(5, D, generator=gen, dtype=torch.float64)
+            c = torch.randn(5, cw, generator=gen, dtype=torch.float64)
+            case = {'program': ['GLU'], 'base': 'std', 'D': D, 'context_columns': cw, 'x': x.reshape(-1).tolist(), 'context': c.reshape(-1).tolist()}
+            try:
+                with torch.no_grad():
+                    lp = flow.log_prob(x, context=c)
+                g = torch.sigmoid(c).expand(5, D)
+                want = (-0.5 * (x * g) ** 2 - 0.5 * math.log(2 * math.pi)).sum(1) + torch.log(g).sum(1)
+                ok = bool(torch.allclose(lp, want, rtol=1e-10, atol=1e-10))
+                got = lp.tolist()
+            except Exception as ex:
+                ok, got, want = False, 'raised %r' % (ex,), None
+            if report is None:
+                ctx.case(key=('gated-flow', D, cw), branch='flow/gated/%s' % ('broadcast' if cw < D else 'per-feature'), nontrivial=True, n=5)
+                if not ok:
+                    ctx.disagree('C03/gated-flow', case, got, want.tolist() if want is not None else None,
+                                 'log_prob differs from log N(x*g) + sum_features log g (the normalised density of the gated flow)')
+            elif not ok:
+                integ = float(torch.exp((lp - want)).mean()) if want is not None and not isinstance(got, str) else float('nan')
+                report('gated flow (D=%d, %d context column%s): exp(log_prob) is %.4g times the normalised density' % (D, cw, '' if cw == 1 else 's', integ),
+                       case, {'symptom': 'integral!=1', 'classes': ['GLU']})
+
+
+def cached_linear_flows(ctx, report=None):
+    """a flow over a linear layer with its weight cache ON, in evaluation mode, asked for samples BEFORE log_prob (the sampling path
+    fills the cache through the inverse accessors): log_prob must still be the closed form log N(W x + b) + log|det W|"""
+    from nflows.flows.base import Flow
+    from nflows.distributions.normal import StandardNormal
+    import nflows.transforms as T
+    gen = torch.Generator().manual_seed(ctx.seed + 3232)
+    for name, mk in (('NaiveLinear', lambda D: T.NaiveLinear(D, using_cache=True)), ('LULinear', lambda D: T.LULinear(D, using_cache=True, identity_init=False)),
+                     ('SVDLinear', lambda D: T.SVDLinear(D, num_householder=2, using_cache=True, identity_init=False))):
+        for D in (2, 3):
+            torch.manual_seed(int(torch.randint(0, 2 ** 31 - 1, (1,), generator=gen)))
+            lin = mk(D).double()
+            with torch.no_grad():
+                for p_ in lin.parameters():
+                    p_.add_(0.4 * torch.randn(p_.shape, generator=gen, dtype=p_.dtype))
+            flow = Flow(lin, StandardNormal([D])).double(); flow.eval()
+            x = 1.3 * torch.randn(4, D, generator=gen, dtype=torch.float64)
+            case = {'program': [name + '(using_cache=True)'], 'base': 'std', 'D': D, 'history': ['eval', 'sample(2)', 'log_prob'], 'x': x.reshape(-1).tolist()}
+            try:
+                with torch.no_grad():
+                    flow.sample(2)
+                    lp = flow.log_prob(x)
+                    W = lin.weight().detach() if callable(getattr(lin, 'weight', None)) else None
+                    lin.use_cache(False)
+                    W = lin.weight().detach(); b = lin.bias.detach()
+                    z = x @ W.t() + b
+                    want = (-0.5 * z ** 2 - 0.5 * math.log(2 * math.pi)).sum(1) + torch.linalg.slogdet(W)[1]
+                ok = bool(torch.allclose(lp, want, rtol=1e-9, atol=1e-9)); got = lp.tolist()
+            except Exception as ex:
+                ok, got, want = False, 'raised %r' % (ex,), None
+            if report is None:
+                ctx.case(key=('cached-linear-flow', name, D), branch='flow/cached-linear/sample-first', nontrivial=True, n=4)
+                if not ok:
+                    ctx.disagree('C03/cached-linear-flow', case, got, want.tolist() if want is not None else None,
+                                 'log_prob after a sample call differs from log N(Wx+b) + log|det W|')
+            elif not ok:
+                report('flow over %s with the cache on: after sample(), log_prob differs from the normalised density log N(Wx+b) + log|det W|' % name,
+                       case, {'symptom': 'integral!=1', 'classes': [name]})
 
 
 # ---------------------------------------------------------------- search: quadrature
@@ -196,6 +272,8 @@ def _quad_1d(flow, c_row):
 
 def search(ctx):
     import random
+    gated_flows(ctx, report=lambda what, case, match: ctx.fail(what, case, match=match))
+    cached_linear_flows(ctx, report=lambda what, case, match: ctx.fail(what, case, match=match))
     gen = torch.Generator().manual_seed(ctx.seed + 303)
     rng = random.Random(ctx.seed + 303)
     for e in stage_pool(1, None):
